@@ -99,7 +99,11 @@ func RunC15(env *Env, job *E1Job) *E1Res {
 	if job.Cfg.NoWriteOps {
 		construction = "no-write-backend"
 	}
-	hist := fmt.Sprintf("[populate: %s] read-only instance (%s, index %s): %s", ops.HistString(job.Setup), construction, map[bool]string{true: "absent", false: "present"}[job.AbsentIndex], ops.HistString(job.Hist))
+	tornNote := ""
+	if job.TornBytes > 0 {
+		tornNote = fmt.Sprintf(", tape cut %d bytes before its end", job.TornBytes)
+	}
+	hist := fmt.Sprintf("[populate: %s"+tornNote+"] read-only instance (%s, index %s): %s", ops.HistString(job.Setup), construction, map[bool]string{true: "absent", false: "present"}[job.AbsentIndex], ops.HistString(job.Hist))
 	info := RunManaged(ph, func() {
 		wcfg := job.Cfg
 		wcfg.ReadOnly, wcfg.NoWriteOps = false, false
@@ -123,6 +127,11 @@ func RunC15(env *Env, job *E1Job) *E1Res {
 		if !job.AbsentIndex {
 			_ = CopyFile(w.Index, dir+"/index.sqlite")
 		}
+		if job.TornBytes > 0 {
+			if fi, err := os.Stat(dir + "/drive.tar"); err == nil && fi.Size() > int64(job.TornBytes) {
+				_ = os.Truncate(dir+"/drive.tar", fi.Size()-int64(job.TornBytes))
+			}
+		}
 		tapeBefore := fileHash(dir + "/drive.tar")
 		ro, err := rig.NewStack(dir, job.Cfg, env.Keys)
 		if err != nil {
@@ -145,6 +154,12 @@ func RunC15(env *Env, job *E1Job) *E1Res {
 			return
 		}
 		if ierr != nil {
+			if job.TornBytes > 0 && job.AbsentIndex {
+				// a read-only instance cannot repair a tape whose rebuild fails; refusing (without touching anything) is fine
+				res.Key = "init-refused"
+				res.Diverged = true
+				return
+			}
 			viol(fmt.Sprintf("C15|initialize-fails|%s|index-absent=%v|%s", construction, job.AbsentIndex, NormErr(ierr)), hist+"\nInitialize failed: "+ierr.Error())
 			res.Diverged = true
 			return
